@@ -141,6 +141,8 @@ class Fixture:
                            for t in self.targets],
                "server": {"lock": dict({"port": self.lock_port}, **({"host": self.lock_host} if self.lock_host else {})),
                           "log": {"port": self.log_port}}}
+        if getattr(self, "lock_override", None) is not None:
+            cfg["server"]["lock"] = dict(self.lock_override)       # the whole `server.lock` object as given (e.g. without a port)
         if self.sequences is not None:
             cfg["sequences"] = self.sequences
         if self.max_retained_runs is not None:
